@@ -330,6 +330,81 @@ def c14(ctx):
     return "model_checking"
 
 
+@check("C18")
+def c18(ctx):
+    excl = "".join(common.excl_classes("C18"))
+    ctx.rule = ("model: Conc.tla, all interleavings of N threads x 2 calls at VM-instruction granularity with the delegate's cache pool as three actions; "
+                "binding: static Send+Sync+Clone assertion (separate crate; a compile failure there is the violation); stress: T threads (half on a shared "
+                "&Regex, half on clones) start behind a barrier and each runs every (pattern, text, offset) cell R times in its own seeded order; the SET of "
+                "all results any thread obtained is validated by TLC against RefSem (a single wrong / torn / cross-talked result is a row the spec does not "
+                "allow); non-trivial = matching cells; schedules of the real code are sampled, not enumerated")
+    # 1. static assertion + stress binary
+    p = common.sh(["cargo", "build", "--offline", "--release", "--quiet", "-p", "vhconc"], cwd=common.HARNESS, env=dict(os.environ, CARGO_NET_OFFLINE="true"))
+    if p.returncode != 0:
+        if any(w in p.stdout for w in ("Send", "Sync", "Clone", "cannot be shared between threads", "cannot be sent between threads")) and "assert_send_sync_clone" in p.stdout:
+            ctx.violation("fancy_regex::Regex is no longer Send + Sync + Clone (static assertion does not compile)", dict(kind="static", rustc=p.stdout[-3000:]))
+            return "model_checking"
+        raise ToolError("vhconc build failed:\n" + p.stdout[-3000:])
+    # 2. the model
+    base = "SPECIFICATION Spec\nCONSTANTS NThreads = %d  BrokenPool = %s  SharedSlots = %s\nINVARIANT ResultsSequential\nINVARIANT CacheExclusive\nINVARIANT NoDeadlock\nCHECK_DEADLOCK FALSE\n"
+    r = tlc.run_mc(ctx, "Conc", base % (2, "FALSE", "FALSE"), name="MC_Conc2", workers=8, coverage=False)
+    mc_violation(ctx, r, "MC_Conc(2 threads)")
+    ctx.cov["mc_conc"] = dict(threads=2, distinct_states=r.distinct, generated=r.generated)
+    if not ctx.quick:
+        r3 = tlc.run_mc(ctx, "Conc", base % (3, "FALSE", "FALSE"), name="MC_Conc3", workers=16, xmx="24g", coverage=False)
+        mc_violation(ctx, r3, "MC_Conc(3 threads)")
+        ctx.cov["mc_conc3"] = dict(threads=3, distinct_states=r3.distinct, generated=r3.generated)
+    for nm, bp, ss, inv in (("broken_pool", "TRUE", "FALSE", "CacheExclusive"), ("shared_slots", "FALSE", "TRUE", "ResultsSequential")):
+        neg = tlc.run_mc(None, "Conc", base % (2, bp, ss), name="MC_Conc_" + nm, workers=4, coverage=False)
+        if neg.violated != inv:
+            raise ToolError("negative control %s: expected TLC to refute %s, got %s" % (nm, inv, neg.violated))
+        ctx.cov.setdefault("negative_controls", {})[nm] = "TLC refutes " + inv
+    # 3. stress
+    t2 = texts("sig6", 2)
+    corpus = sample(ctx, read_ndjson(pats("ctxfill", 0)), 150 if ctx.quick else 600) + sample(ctx, read_ndjson(pats("plain", 3)), 60 if ctx.quick else 300) \
+        + sample(ctx, read_ndjson(pats("condctx", 0)), 40 if ctx.quick else 200)
+    corpus = renumber_ids(corpus)
+    d = common.workdir("C18")
+    af = os.path.join(d, "corpus.asts.ndjson")
+    common.write_ndjson(af, corpus)
+    rp, rt = os.path.join(d, "corpus.raw.ndjson"), os.path.join(d, "texts.raw.ndjson")
+    common.vh(["raw", "--asts", af, "--texts", t2, "--out-pats", rp, "--out-texts", rt])
+    conc = os.path.join(common.HARNESS, "target", "release", "vhconc")
+    total_calls = 0
+    for threads, rounds in ([(2, 3), (4, 2), (8, 2)] if ctx.quick else [(2, 20), (3, 20), (4, 20), (8, 20), (16, 20)]):
+        name = "stress_t%d" % threads
+        prefix = os.path.join(d, name + ".rows")
+        common.clean_prefix(prefix)
+        shards = 16
+        pr = common.sh([conc, "--pats", rp, "--texts", rt, "--threads", str(threads), "--rounds", str(rounds), "--seed", str(ctx.seed * 100 + threads),
+                        "--shards", str(shards), "--out", prefix], timeout=3600)
+        if pr.returncode != 0:
+            ctx.violation("concurrent stress with %d threads crashed (exit %s)" % (threads, pr.returncode), dict(kind="stress", threads=threads, output=pr.stdout[-2000:]))
+            continue
+        rs = tlc.run_shards("TraceRows", [dict(VH_RECS="%s.%d.ndjson" % (prefix, i), VH_TEXTS=t2, VH_MODE="caps", VH_EXCL=excl, VH_LEMMA="0") for i in range(shards)])
+        tlc.require_clean(rs, "TraceRows(%s)" % name)
+        ctx.add_tlc(rs)
+        st = {}
+        for x in rs:
+            for k, v in x.tagged("STATS")[0].items():
+                st[k] = st.get(k, 0) + v
+            for j in x.tagged("REJECT"):
+                ctx.violation("under %d concurrent threads pattern %s returned a result the sequential semantics does not allow: %s (missing: %s)"
+                              % (threads, j["pat"], j["logged_not_expected"], j["expected_not_logged"]), dict(kind="stress", threads=threads, got=j))
+        calls = int(pr.stdout.split(" calls")[0].split()[-1]) if " calls" in pr.stdout else 0
+        total_calls += calls
+        ctx.cov.setdefault("stress", {})[name] = dict(st, threads=threads, rounds=rounds, calls=calls)
+        ctx.traces += st["ok"]
+        ctx.nontrivial += st["matching_cells"]
+    ctx.evaluations = total_calls
+    probe_known(ctx, "caps")
+    ctx.samples.append(dict(corpus_patterns=len(corpus), first=corpus[0]["ast"]))
+    ctx.exhaustive = False
+    ctx.assumptions = ["model_checking for the design (Conc.tla); the binding samples schedules of the real code (loom/shuttle cannot instrument std primitives used by the crate and regex-automata)",
+                       "a wrong result is detectable only if it differs from the sequential result of the same call"]
+    return "model_checking"
+
+
 @check("C19")
 def c19(ctx):
     excl = "".join(common.excl_classes("C19"))
